@@ -412,12 +412,23 @@ class ScriptedSim(mosaik_api_v3.Simulator):
         desc = dict(META[typ])
         desc.update(public=True, params=[])
         self.meta = {"api_version": "3.0", "type": typ, "models": {"M": desc}}
+        if self.spec.get("via_children") and typ == "hybrid":
+            # hierarchical entities: the connected entities are *children* (non-public model N, the usual
+            # classification) of entities of the public model M, whose attributes of the same names are classified
+            # the other way round (trigger <-> non-trigger, persistent <-> non-persistent)
+            self.meta["models"] = {
+                "M": {"public": True, "params": [], "attrs": ["mi", "ti", "po", "eo"], "trigger": ["mi"],
+                      "non-persistent": ["po"]},
+                "N": dict(desc, public=False)}
         if self.spec.get("set_events"):
             self.meta["set_events"] = True
         self.ctl.ev("init", sid, time_resolution)
         return self.meta
 
     def create(self, num, model, **params):
+        if "N" in self.meta["models"]:
+            return [{"eid": f"parent{i}", "type": model, "children": [{"eid": f"e{i}", "type": "N"}]}
+                    for i in range(num)]
         return [{"eid": f"e{i}", "type": model} for i in range(num)]
 
     def _fault(self, kind_of_request):
@@ -799,6 +810,8 @@ def run_case(case, keep_world=False):
                     pspec = {k: v for k, v in sp.items() if k not in ("transport",)}
                     fac = world.start(name, sim_id=child, spec=pspec)
                     ents[child] = fac.M.create(sp.get("n_ent", 1))
+                    if sp.get("via_children") and sp.get("type") == "hybrid":
+                        ents[child] = [e.children[0] for e in ents[child]]
                 else:
                     with world.group():
                         build(child)
